@@ -767,6 +767,7 @@ class Driver:
             reported.append((kind, path, mv))
         wall = time.time() - self.t0
         ev = self.evidence(results, done, harness, viols, known_hits, reported, unrepro, n_det, bad_det, wall)
+        ev['coverage']['starved_probes'] = [p for p in getattr(mod, 'PROBES', []) if ev['coverage'].get('probes', {}).get(p, 0) == 0]
         os.makedirs(EVIDENCE_DIR, exist_ok=True)
         with open(os.path.join(EVIDENCE_DIR, self.prop_id + '.json'), 'w') as f:
             json.dump(ev, f, indent=1, sort_keys=True, default=repr)
@@ -794,7 +795,10 @@ class Driver:
         starved = [p for p in getattr(mod, 'PROBES', []) if cov['probes'].get(p, 0) == 0]
         if starved and self.tier == 'quick' and not os.environ.get('VERIF_RUNS'):
             print('HARNESS-WEAK property=%s: probes never fired: %s' % (self.prop_id, starved), flush=True)
-            return 2
+            # a generator problem when the planned runs were (mostly) explored; on an overloaded machine that explored only a
+            # fraction of them within the wall budget it is reported (here and in the evidence) but does not fail the check
+            if len(results) * 2 >= cov.get('planned_runs', 0):
+                return 2
         return 0
 
     def evidence(self, results, done, harness, viols, known_hits, reported, unrepro, n_det, bad_det, wall):
